@@ -86,6 +86,36 @@ func ruleCommonTypeMap(c *core.Ctx) {
 		}
 		seen[k] = cm
 		okRank := rank[cm] >= rank[a] && rank[cm] >= rank[b] && rank[cm] > 0
+		// integer × integer: the result holds every value of both operands whenever some integer
+		// primitive can (signed with uint64/size has no such type: any 64-bit result is accepted)
+		type irange struct {
+			signed bool
+			bits   int
+		}
+		ints := map[string]irange{"int8": {true, 8}, "int16": {true, 16}, "int32": {true, 32}, "int64": {true, 64},
+			"uint8": {false, 8}, "uint16": {false, 16}, "uint32": {false, 32}, "uint64": {false, 64}, "size": {false, 64}}
+		holds := func(outer, inner irange) bool {
+			if outer.signed == inner.signed {
+				return outer.bits >= inner.bits
+			}
+			return outer.signed && outer.bits > inner.bits
+		}
+		ra, aInt := ints[a]
+		rb, bInt := ints[b]
+		rc, cInt := ints[cm]
+		if aInt && bInt && cInt && okRank {
+			exists := false
+			for _, r := range ints {
+				exists = exists || (holds(r, ra) && holds(r, rb))
+			}
+			if exists && !(holds(rc, ra) && holds(rc, rb)) {
+				c.Bad(rule, key, row.Pos(), fmt.Sprintf("common type %s of (%s, %s) cannot hold every value of both operands although an integer type that can exists: the promotion loses range", cm, a, b))
+				continue
+			}
+			if !exists && rc.bits != 64 {
+				okRank = false
+			}
+		}
 		c.Check(okRank, rule, key, row.Pos(), "common type "+cm+" is at least as wide as both operands", fmt.Sprintf("common type %s of (%s, %s) is narrower than an operand: the documented promotion loses range", cm, a, b))
 	}
 	// both insertion orders
